@@ -585,3 +585,20 @@ def rxl_big(names):
 
 for _p in ("C03", "C05", "C08"):
     PROPS[_p]["harnesses"] += rxl_big(["intermediate_lattice_big_storage", "end_lattice_big_storage"])
+
+PROPS["C10"]["harnesses"] += [H("c10::padding_lattice", bounds="padding of 2..=70000 bytes: zero first nibble, arbitrary low nibble, one symbolic byte at a symbolic position; any label memory; RefMem 1 slot occupied", unwind=8, stubs=STUB_HDR, cost=20, timeout=600)]
+PROPS["C05"]["harnesses"] += [H("c10::padding_lattice", bounds="padding of 2..=70000 bytes", unwind=8, stubs=STUB_HDR, cost=20, timeout=600)]
+
+def rxl_big2(names):
+    return [H(f"rxl::{n}", bounds="as the lattice of the same name, with frames and storage buffers up to 70000 bytes", unwind=8, stubs=STUB_HDR + [STUB_WALKER], cost=60, mem_gb=6, timeout=900) for n in names]
+
+
+for _p in ("C01", "C10"):
+    PROPS[_p]["harnesses"] += rxl_big2(["complete_lattice_big"])
+for _p in ("C02", "C10"):
+    PROPS[_p]["harnesses"] += rxl_big2(["first_lattice_big"])
+PROPS["C10"]["harnesses"] += rxl_big(["intermediate_lattice_big_storage", "end_lattice_big_storage"])
+PROPS["C05"]["harnesses"] += rxl_big2(["complete_lattice_big", "first_lattice_big"])
+for _p in ("C01", "C02", "C03", "C05", "C08", "C10"):
+    PROPS[_p]["outside"] = [o.replace("storage buffers larger than 65535 bytes", "storage buffers larger than 70000 bytes") for o in PROPS[_p].get("outside", [])] + [
+        "frames and storage buffers longer than 70000 bytes (the *_big lattices cover lengths up to 70000, i.e. across the 16-bit boundary)"]
